@@ -19,6 +19,7 @@ FIXED = [
     ("C15", "39181ba", "the per-row value cache was keyed by an incomplete rendering of the expression: `size + 1, size - 1` printed the same value twice, `(2 + 3) * 4` printed 14, `power(size, 2), power(size, 3)` shared one result", ["plus-minus-neighbours", "bracket-placement", "power-later-arg", "same-subexpr-in-one", "left-assoc"]),
     ("C15", "499e0dc", "a leading minus on a column or function call was ignored (`-size` printed the size)", ["neg-column"]),
     ("C15", "5e1797f", "a negative integer literal compared with an integer value was read as 0 (`where -size < -13` matched every file)", ["neg-column"]),
+    ("C02", "c323f3c", "a quoted literal that spells a column or function name was looked up as one: `name = 'size'` compared with the size column, `ext = 'bin'` was a parse error (BIN without brackets), `name = 'name'` matched everything", ["reserved-literals"]),
 ]
 
 OPEN = [
